@@ -23,6 +23,9 @@ def plan(prop, tier, seed):
 
 def gen_case(rnd):
     k = rnd.random()
+    if k < 0.05:
+        # one problem many times over: more instances than any small constant a pass might count to
+        return "repeated", triggers.repeated(rnd)
     if k < 0.45:
         return "trigger", triggers.document(rnd)
     if k < 0.65:
@@ -118,6 +121,9 @@ def build(text, lang):
     return tree
 
 
+FIXED_POINT_STEP = {"fix_nesting": "_fix_nesting", "fix_paragraphs": "_fix_paragraphs"}
+
+
 def run_case(prop, R, text, lang, kind):
     """returns list of (prop, key, what, detail)"""
     from mwlib.parser.treecleaner import TreeCleaner
@@ -158,6 +164,19 @@ def run_case(prop, R, text, lang, kind):
                 name, type(e).__name__, str(e)[:100]), exc_detail(e)))
             raised = True
         R.count("pass_calls")
+        if name in FIXED_POINT_STEP and not raised:
+            # the pass is `while self._step(node): pass`: at its fixed point one more step finds nothing to repair
+            try:
+                with stepclock.budget(10 ** 6 + 2000 * n * d):
+                    again = getattr(tc, FIXED_POINT_STEP[name])(tree)
+                R.count("fixed_point_probes")
+                if again:
+                    found.append(("C06", "fixed-point-not-reached:%s" % name,
+                                  "pass %s returned although one more %s step still repairs something (tree of %d nodes)" % (
+                                      name, FIXED_POINT_STEP[name], n), None))
+            except BaseException as e:
+                found.append(("C06", "fixed-point-probe-raises:%s:%s" % (name, exc_key(e)), "re-running %s raised %s" % (
+                    FIXED_POINT_STEP[name], type(e).__name__), exc_detail(e)))
         if snapshot(tree) != before:
             R.seen("passes_fired", name)
             R.count("pass_fired")
